@@ -626,6 +626,89 @@ def rule_int_gate(rep, F):
     rep.floor("Int constructions in Int::from_str", 1, n)
 
 
+def rule_group_nonempty(rep, F, inv):
+    """grouped map writers (key written once per element of an inner collection): a key whose group is empty has no wire form"""
+    import fieldflow as ff
+    import mustpass as mp
+    rep.rule("GROUP-nonempty", "a writer that emits a key once per element of the group stored under it (nested loops, key serialised in the inner one) cannot represent a key with an empty group: every insertion into such a map either is dominated by the non-empty edge of a test of the group's length or is followed on every path by a push into the group (so no value reachable through the API holds an empty group that the round trip would lose)")
+    grouped = {}
+    for T, fid in inv.ser.items():
+        h = F.hir.get(fid)
+        if not h:
+            continue
+        for a in H.walk(h["body"]):
+            if a[0] != "for":
+                continue
+            names = H.pat_bindings(a[2])
+            if len(names) != 2:
+                continue
+            k, v = names
+            for b in H.walk(a[4]):
+                if b[0] == "for" and ((H.path_str(H.strip(b[3])) or "").split(".")[0] == v):
+                    if any(m[0] == "mcall" and m[2] == "serialize" and H.path_str(H.strip(m[4])) == k for m in H.walk(b[4])):
+                        grouped[T] = fid
+    rep.floor("grouped map writers", 1, len(grouped))
+    for T in grouped:
+        adt = [a for a in F.adts if a == T or a.endswith("::" + short_ty(T))]
+        if len(adt) != 1:
+            rep.lost("grouped writer type %s not found among ADTs" % T)
+            continue
+        flds = F.adts[adt[0]]["variants"][0]["fields"]
+        mty = [f["ty"] for f in flds if "Map<" in f["ty"]]
+        if len(mty) != 1:
+            rep.lost("%s: no single map field" % T)
+            continue
+        m = re.search(r"Map<(.*), *([A-Za-z0-9_:]+)>$", mty[0])
+        if not m:
+            rep.lost("%s: map type %s not understood" % (T, mty[0]))
+            continue
+        gty = m.group(2)
+        gshort = gty.rsplit("::", 1)[-1]
+        n_sites = 0
+        for fid, fn in F.fns.items():
+            if "/tests/" in fn["file"] or F.is_derived(fid):
+                continue
+            calls = F.calls(fid)
+            sites = []
+            for c in calls:
+                to = c.to or ""
+                if not (to.endswith("Map::<K, V, S>::insert") or to.endswith("Map::<K, V, S>::entry") or to.endswith("Map::<K, V>::insert") or to.endswith("Map::<K, V>::entry")):
+                    continue
+                a0 = c.args[0] if c.args else None
+                lty = ""
+                if a0 and a0[0] in ("c", "m"):
+                    li = int(a0[1].split("|")[0][1:])
+                    lty = fn["locals"][li] if li < len(fn["locals"]) else ""
+                if gty in lty and lty.rstrip(">").endswith(gty):
+                    sites.append(c)
+            if not sites:
+                continue
+            org = ff.Origins(F, fid)
+            pd, _succ = mp.postdominators(fn)
+            for c in sites:
+                n_sites += 1
+                rep.inst("GROUP-nonempty")
+                ok = False
+                if (c.to or "").endswith("::entry"):
+                    for c2 in calls:
+                        if re.search(r"%s::(add|add_move|push)$" % re.escape(gshort), c2.to or "") and c2.bb in pd.get(c.bb, set()):
+                            ok = True
+                else:
+                    for s_bb, edge, cond in mp.dominating_guards(F, fid, c.bb, org):
+                        if cond["kind"] == "bin" and cond["op"] in ("Eq", "Ne", "Gt", "Lt"):
+                            side = cond["lhs"] + cond["rhs"]
+                            if any(x.startswith("call:") and x.split("@")[0].endswith("%s::len" % gshort) for x in side) and "const" in side:
+                                true_edge = (edge != "0") != cond["neg"]
+                                if (cond["op"] == "Eq" and not true_edge) or (cond["op"] != "Eq" and true_edge):
+                                    ok = True
+                        if cond["kind"] == "call" and cond["callee"].endswith("is_empty") and any(("%s" % gshort) in x for a_ in cond["args"] for x in a_):
+                            if (edge == "0") != cond["neg"]:
+                                ok = True
+                if not ok:
+                    rep.violation("GROUP-nonempty", "%s|%s" % (short_ty(T), F.key(fid)), "%s puts a %s under a key of %s without ensuring the group is non-empty; the writer emits the key once per group element, so `insert(key, %s::new())` yields a value whose key vanishes on the wire: decode(encode(v)) != v (len 2 -> `a1 41 01 01` -> len 1)" % (F.key(fid), gshort, short_ty(T), gshort), {})
+        rep.floor("insertions into grouped maps (%s)" % short_ty(T), 3, n_sites)
+
+
 def check(rep, F, tier, replay=None):
     aud = common.load_table("e2_audited.json")
     inv = Inventory(F, thorough=(tier == "thorough"))
@@ -637,6 +720,7 @@ def check(rep, F, tier, replay=None):
     rule_rw_index(rep, F, inv)
     rule_rw_tag(rep, F, inv)
     rule_rw_group(rep, F, inv)
+    rule_group_nonempty(rep, F, inv)
     rule_inverse_tables(rep, F)
     rule_pair(rep, F, inv, aud)
     rule_negint(rep, F)
